@@ -447,7 +447,7 @@ func record(cs *caseStats, canon string, prefix string, extra ...string) {
 }
 
 func TestC20Search(t *testing.T) {
-	vlib.Check(t, 1500, 20000, func(rt *rapid.T) {
+	vlib.Check(t, 3000, 20000, func(rt *rapid.T) {
 		c := genCase(rt)
 		var cs caseStats
 		f := propSearch(c, &cs)
@@ -613,7 +613,7 @@ func maxInt(a, b int) int {
 }
 
 func TestC20Raw(t *testing.T) {
-	vlib.Check(t, 3000, 30000, func(rt *rapid.T) {
+	vlib.Check(t, 4000, 30000, func(rt *rapid.T) {
 		c := genRaw(rt)
 		var cs caseStats
 		f := propRaw(c, &cs)
